@@ -272,7 +272,15 @@ struct SeqEngine final : Engine {
         o.c = (keykind == 1 && r.chance(0.5)) ? 1 : 0;
       } else {
         const double y = static_cast<double>(r.below(10000)) / 10000.0;
-        if (y < 0.22) {
+        if (varbound && br.chance(0.08)) {
+          // point lookups with keys of other lengths than the stored ones: a proper prefix or an extension of a pool key is
+          // never stored (the pool is prefix-free) and never changes the key set, so get must miss and remove must fail
+          o.kind = br.chance(0.5) ? S_GET : S_REMOVE;
+          std::string k = r.chance(0.7) ? pick_present() : pool[r.below(pool.size())];
+          if (k.size() > 1 && br.chance(0.6)) k.resize(1 + br.below(k.size() - 1));
+          else { const size_t extra = 1 + br.below(3); for (size_t e = 0; e < extra; e++) k.push_back(static_cast<char>(br.chance(0.4) ? 0x00 : static_cast<int>(br.below(256)))); }
+          o.key = k;
+        } else if (y < 0.22) {
           o.kind = S_GET;
           o.key = r.chance(0.7) ? pick_present() : pick_absent();
         } else if (y < 0.22 + 0.78 * pi) {
